@@ -7,7 +7,7 @@ props="$*"
 python3 - $props <<'PY' > /tmp/sweep.$$.list
 import json,glob,os,sys
 props=sys.argv[1:]
-pkg={'C01':'logger','C02':'logger','C03':'logger','C13':'logger','C15':'logger httpd','C04':'httpd','C05':'httpd','C06':'tasklane','C07':'tasklane','C08':'tasklane','C14':'tasklane','C09':'config','C10':'config','C11':'util/netutil','C12':'util/netutil','C16':'util/strutil','C17':'util/fsutil','C18':'util/fsutil','C19':'util/ioutil','C20':'daemon'}
+pkg={'C01':'logger','C02':'logger','C03':'logger','C13':'logger','C15':'logger httpd','C04':'httpd','C05':'httpd','C06':'tasklane','C07':'tasklane','C08':'tasklane','C14':'tasklane','C09':'config','C10':'config','C11':'util/netutil','C12':'util/netutil','C16':'util/strutil','C17':'util/fsutil','C18':'util/osutil','C19':'util/ioutil','C20':'daemon'}
 for m in sorted(glob.glob('/verif/seeded/*/meta.json')):
     d=os.path.dirname(m); meta=json.load(open(m)); kind=meta.get('kind','mutant')
     patch=open(d+'/patch.diff').read()
